@@ -429,7 +429,7 @@ namespace Givaro {
     inline void GFqDom<Any>::mul
     (const size_t sz, Array r, constArray a, constArray b) const
     {
-        for ( size_t i=sz ; --i ; ) {
+        for ( size_t i=sz ; i-- ; ) {
             _GIVARO_GFQ_MUL(r[i],a[i],b[i], GFqDom<Any>::_qm1) ;
         }
     }
@@ -438,7 +438,7 @@ namespace Givaro {
     inline void GFqDom<Any>::mul
     (const size_t sz, Array r, constArray a, const Rep b) const
     {
-        for ( size_t i=sz ; --i ; ) {
+        for ( size_t i=sz ; i-- ; ) {
             _GIVARO_GFQ_MUL(r[i],a[i],b, GFqDom<Any>::_qm1) ;
         }
     }
@@ -447,7 +447,7 @@ namespace Givaro {
     inline void GFqDom<Any>::div
     (const size_t sz, Array r, constArray a, constArray b) const
     {
-        for ( size_t i=sz ; --i ; ) {
+        for ( size_t i=sz ; i-- ; ) {
             _GIVARO_GFQ_DIV(r[i],a[i],b[i], GFqDom<Any>::_qm1) ;
         }
     }
@@ -456,7 +456,7 @@ namespace Givaro {
     inline void GFqDom<Any>::div
     (const size_t sz, Array r, constArray a, const Rep b) const
     {
-        for ( size_t i=sz ; --i ; ) {
+        for ( size_t i=sz ; i-- ; ) {
             _GIVARO_GFQ_DIV(r[i],a[i],b, GFqDom<Any>::_qm1) ;
         }
     }
@@ -465,7 +465,7 @@ namespace Givaro {
     inline void GFqDom<Any>::add
     (const size_t sz, Array r, constArray a, constArray b) const
     {
-        for ( size_t i=sz ; --i ; ) {
+        for ( size_t i=sz ; i-- ; ) {
             _GIVARO_GFQ_ADD(r[i], a[i], b[i], GFqDom<Any>::_qm1, GFqDom<Any>::_plus1) ;
         }
     }
@@ -474,7 +474,7 @@ namespace Givaro {
     inline void GFqDom<Any>::add
     (const size_t sz, Array r, constArray a, const Rep b) const
     {
-        for ( size_t i=sz ; --i ; ) {
+        for ( size_t i=sz ; i-- ; ) {
             _GIVARO_GFQ_ADD(r[i], a[i], b, GFqDom<Any>::_qm1, GFqDom<Any>::_plus1) ;
         }
     }
@@ -483,7 +483,7 @@ namespace Givaro {
     inline void GFqDom<Any>::sub
     (const size_t sz, Array r, constArray a, constArray b) const
     {
-        for ( size_t i=sz ; --i ; ) {
+        for ( size_t i=sz ; i-- ; ) {
             _GIVARO_GFQ_SUB(r[i], a[i], b[i], GFqDom<Any>::mOne, GFqDom<Any>::_qm1, GFqDom<Any>::_plus1) ;
         }
     }
@@ -492,7 +492,7 @@ namespace Givaro {
     inline void GFqDom<Any>::sub
     (const size_t sz, Array r, constArray a, const Rep b) const
     {
-        for ( size_t i=sz ; --i ; ) {
+        for ( size_t i=sz ; i-- ; ) {
             _GIVARO_GFQ_SUB(r[i], a[i], b, GFqDom<Any>::mOne, GFqDom<Any>::_qm1, GFqDom<Any>::_plus1) ;
         }
     }
@@ -501,7 +501,7 @@ namespace Givaro {
     inline void GFqDom<Any>::neg
     (const size_t sz, Array r, constArray a) const
     {
-        for ( size_t i=sz ; --i ; ) {
+        for ( size_t i=sz ; i-- ; ) {
             _GIVARO_GFQ_NEG(r[i], a[i], GFqDom<Any>::mOne, GFqDom<Any>::_qm1) ;
         }
     }
@@ -510,7 +510,7 @@ namespace Givaro {
     inline void GFqDom<Any>::inv
     (const size_t sz, Array r, constArray a) const
     {
-        for ( size_t i=sz ; --i ; ) {
+        for ( size_t i=sz ; i-- ; ) {
             _GIVARO_GFQ_INV(r[i], a[i], GFqDom<Any>::_qm1) ;
         }
     }
@@ -519,7 +519,7 @@ namespace Givaro {
     inline void GFqDom<Any>::axpy
     (const size_t sz, Array r, const Rep a, constArray x, constArray y) const
     {
-        for ( size_t i=sz ; --i ; ) {
+        for ( size_t i=sz ; i-- ; ) {
             _GIVARO_GFQ_MULADD(r[i], a, x[i], y[i], GFqDom<Any>::_qm1, GFqDom<Any>::_plus1) ;
         }
     }
@@ -529,7 +529,7 @@ namespace Givaro {
     (const size_t sz, Array r, const Rep a, constArray x) const
     {
         Rep tmp;
-        for ( size_t i=sz ; --i ; ) {
+        for ( size_t i=sz ; i-- ; ) {
             tmp = r[i];
             _GIVARO_GFQ_MULADD(r[i], a, x[i], tmp, GFqDom<Any>::_qm1, GFqDom<Any>::_plus1) ;
         }
@@ -539,7 +539,7 @@ namespace Givaro {
     inline void GFqDom<Any>::axpy
     (const size_t sz, Array r, const Rep a, constArray x, const Rep y) const
     {
-        for ( size_t i=sz ; --i ; ) {
+        for ( size_t i=sz ; i-- ; ) {
             _GIVARO_GFQ_MULADD(r[i], a, x[i], y, GFqDom<Any>::_qm1, GFqDom<Any>::_plus1) ;
         }
     }
@@ -548,7 +548,7 @@ namespace Givaro {
     inline void GFqDom<Any>::axmy
     (const size_t sz, Array r, const Rep a, constArray x, constArray y) const
     {
-        for ( size_t i=sz ; --i ; ) {
+        for ( size_t i=sz ; i-- ; ) {
             _GIVARO_GFQ_MUL(r[i], a, x[i], GFqDom<Any>::_qm1) ;
             _GIVARO_GFQ_AUTOSUB(r[i], y[i], GFqDom<Any>::mOne, GFqDom<Any>::_qm1, GFqDom<Any>::_plus1) ;
         }
@@ -558,7 +558,7 @@ namespace Givaro {
     inline void GFqDom<Any>::axmy
     (const size_t sz, Array r, const Rep a, constArray x, const Rep y) const
     {
-        for ( size_t i=sz ; --i ; ) {
+        for ( size_t i=sz ; i-- ; ) {
             _GIVARO_GFQ_MUL(r[i], a, x[i], GFqDom<Any>::_qm1) ;
             _GIVARO_GFQ_AUTOSUB(r[i], y, GFqDom<Any>::mOne, GFqDom<Any>::_qm1, GFqDom<Any>::_plus1) ;
         }
@@ -569,7 +569,7 @@ namespace Givaro {
                                      const Rep a, constArray x) const
     {
         Rep tmp;
-        for ( size_t i=sz ; --i ; ) {
+        for ( size_t i=sz ; i-- ; ) {
             _GIVARO_GFQ_MUL(tmp, a, x[i], GFqDom<Any>::_qm1) ;
             _GIVARO_GFQ_AUTOSUB(r[i], tmp, GFqDom<Any>::mOne, GFqDom<Any>::_qm1, GFqDom<Any>::_plus1) ;
         }
